@@ -1716,6 +1716,39 @@ def render_struct(repo=None):
     return HEAD % (", ".join(rels), STRUCT_NOTE) + "\n".join(parts)
 
 
+# ====================================================================== save: the writers of save_pcfg_data.py
+SAVE_NOTE = ("theories/WriterGenProofs.v proves them equal to\n"
+             "   TextFile.write_file / Counters.save_indexed / save_pcfg_data over the file system of WriterRt.v.")
+SAVE_CTX = ("{O : numops} (repr : num O -> TextFile.str) (encb : TextFile.str -> N -> bool) "
+            "(calculate_probabilities : Counters.counter O -> Counters.counter O)")
+SAVE_SPECS = [
+    dict(py="calculate_and_save_counter", coq="py_calculate_and_save_counter",
+         params=[("filename", PATH), ("item_counter", CNT), ("encoding", STR)], ret=BOOL, stateful=True),
+    dict(py="save_indexed_counters", coq="py_save_indexed_counters",
+         params=[("folder", PATH), ("counter_list", KCNTS), ("encoding", STR)], ret=BOOL, stateful=True),
+    dict(py="save_pcfg_data", coq="py_save_pcfg_data",
+         params=[("base_directory", PATH), ("pcfg_parser", PARSER), ("encoding", STR), ("save_sensitive", BOOL)],
+         ret=BOOL, stateful=True),
+]
+
+
+def render_save(repo=None):
+    rel = "lib_trainer/save_pcfg_data.py"
+    path, tree = parse(repo, rel)
+    check_module(path, tree, {sp["py"] for sp in SAVE_SPECS}, modules=("os", "codecs"),
+                 from_imports=[("calculate_probabilities", "calculate_probabilities")])
+    defs = defs_of(path, tree.body)
+    g = Group("save", SAVE_CTX, "repr encb calculate_probabilities",
+              {"calculate_probabilities": ([CNT], LIST(TUP(STR, NUM)))})
+    parts = []
+    for spec in SAVE_SPECS:
+        if spec["py"] not in defs:
+            raise TranslateError("%s: %s not found" % (path, spec["py"]))
+        parts.append(FnTr(path, rel, "", defs[spec["py"]], spec, g).translate())
+        g.done[spec["py"]] = spec
+    return HEAD % (rel, SAVE_NOTE) + "\n".join(parts)
+
+
 def failure_text(name, err):
     """text written instead of the definitions when the translation fails: it must not
     compile, so that no stale generated definition survives"""
@@ -1750,6 +1783,7 @@ def write_all(repo=None):
 
 KERNELS = {}
 KERNELS["struct"] = (render_struct, os.path.join("gen", "WriterStruct_gen.v"))
+KERNELS["save"] = (render_save, os.path.join("gen", "Writer_gen.v"))
 
 if __name__ == "__main__":
     args = sys.argv[1:]
